@@ -235,7 +235,7 @@ def coq_string(s):
     return '"' + s.replace('"', '""') + '"'
 
 
-CASE_HEADER = ('From Coq Require Import NArith ZArith QArith List Bool String.\n'
+CASE_HEADER = ('From Coq Require Import NArith ZArith List Bool String.\n'
                'Import ListNotations.\n')
 
 
